@@ -755,7 +755,10 @@ def execInstr (img : Image) (s : State) (i : Instr) : State :=
   | .stop => { s with status := .halted }
   | .routine _ => s.fault "ROUTINE executed"
   | .bad w => s.fault ("bad instruction " ++ w)
-  | .constant n v => { s with constants := s.constants.put n v }
+  -- `Machine._constant` stores into `Machine._constants`, but the call stack was handed a fresh
+  -- dictionary (`CallStack.reset`: `constants or {}` with the still empty dictionary), so no
+  -- lookup ever sees a run-time constant: macros act at compile time only
+  | .constant _ _ => s
   | .moveq v d =>
     match d, v with
     | .reg .unitMode, .mode m => s.switchMode m
